@@ -67,7 +67,7 @@ def run(ctx):
     rnd = random.Random(ctx.seed)
     for wi in range(nwl):
         wseed = ctx.seed * 100 + wi
-        export_points = sorted(rnd.sample(range(nblocks // 2, nblocks - 5), 3) + [rnd.randrange(3, nblocks // 2)])
+        export_points = sorted(rnd.sample(range(nblocks // 2, nblocks - 5), 3) + [rnd.randrange(12, nblocks // 2)])
         dump = os.path.join(d, "dump%d" % wi)
         outs = []
 
